@@ -311,6 +311,10 @@ func InputForm(form, setup string) (cwd, input, gofile string) {
 		return dir, setup, ""
 	case "abs-modroot":
 		return modRoot, setup, ""
+	case "symlink-modroot":
+		// the module root entered through a symbolic link whose logical parent
+		// (elsewhere/) differs from the physical one
+		return "{W}/elsewhere/modlink", relFromMod, ""
 	case "symlink-pkgdir":
 		// the package directory reached through a symbolic link to the module root
 		return strings.Replace(dir, modRoot, "{W}/modlink", 1), base, ""
